@@ -44,7 +44,7 @@ def bounds(tier):
                       degrees='1..n-1', parametrisation='chord, centripetal', approx_ctrlpts='degree+2..n-1',
                       long='n=8: 128 patterns; n=12: 2048 patterns (degrees 1..11; approximation degrees 1..5); n=20: 64 patterns, '
                            'degrees 1..12,15,19; n=40: 64 patterns, degrees 1..7 (8 patterns: ..12,15,19); every approximation count '
-                           '(n=40: degrees <= 3)',
+                           '(approximation degrees: n=20 <= 7, n=40 <= 3 and 5 on 8 patterns)',
                       surfaces='3x3: 512 height nets x 3 lattices; {3,4,5}^2 all pairs x 4 codes x 3 lattices; '
                                '(8,5),(5,8),(12,6),(20,4),(4,40) x 2 codes; degrees<=3'))[tier]
 
@@ -342,6 +342,8 @@ def _stair_case(case, ctx):
         sparse = True
     else:
         adeg = [p for p in degs if p <= (3 if n == 40 else 5 if n == 12 else 7)]
+        if n == 40 and case.get('rank', 0) < 8:
+            adeg.append(5)
         sparse = False
     _curve(dict(kind='curve', family='stair', pts=pts, degrees=degs, approx_degrees=adeg, sparse_counts=sparse), ctx)
 
